@@ -395,8 +395,14 @@ func legC14Clock(c *Ctx) {
 	hbStop := make(chan struct{})
 	go c14Heartbeat(hbStop)
 	defer close(hbStop)
+	// the two constants the model hard-codes: the shift of durationToTicks and the slop of extendClock
+	for i := 0; i < c.N(200, 2000); i++ {
+		x := int64(c.Rng.Next()>>uint(2+c.Rng.Intn(60))) - int64(c.Rng.Intn(3))*int64(c.Rng.Intn(1<<30))
+		c.Add(&Case{Desc: fmt.Sprintf("durationToTicks(%d)", x), ModelLeg: 1403, ModelIn: []int64{x},
+			ImplOut: []int64{regexp2.VerifClockTicks(time.Duration(x)), regexp2.VerifClockTicks(time.Second)}, Class: "ticks"})
+	}
 	var tot c14Hist
-	nh := c.N(18, 90)
+	nh := c.N(16, 90)
 	for hi := 0; hi < nh; hi++ {
 		h := mk()
 		if !c14StopWithin(3*time.Second) || !regexp2.VerifClockReset() {
